@@ -16,8 +16,11 @@ HDR = "From BV Require Import Model.V1 Model.Config."
 
 CONFIG_FILES = ["setup.cfg", "pyproject.toml", "bumpver.toml", ".bumpver.toml", "pycalver.toml"]
 OTHER_FILES = ["README.md", "README.rst", "setup.py"]
-UNRELATED = {"setup.cfg": "[metadata]\nname = demo\n", "pyproject.toml": "[build-system]\nrequires = [\"setuptools\"]\n", "bumpver.toml": "[other]\nx = 1\n",
-             ".bumpver.toml": "# nothing here\n", "pycalver.toml": "[misc]\ny = 2"}
+# prior content of other tools, in the syntaxes those tools accept: `key: value` options in setup.cfg, [tool.*] tables in TOML files
+UNRELATED = {"setup.cfg": "[metadata]\nname = demo\nlicense: MIT\n\n[flake8]\nmax-line-length: 100\n",
+             "pyproject.toml": "[build-system]\nrequires = [\"setuptools\"]\n\n[tool.black]\nline-length = 100\n",
+             "bumpver.toml": "[other]\nx = 1\n\n[tool.isort]\nprofile = \"black\"\n",
+             ".bumpver.toml": "# nothing here\n[tool.coverage.run]\nbranch = true\n", "pycalver.toml": "[misc]\ny = 2\n\n[tool.black]\nline-length = 88"}
 SECTION = {"setup.cfg": "[metadata]\nname = demo\n\n[bumpver]\ncurrent_version = 1.2.3\nversion_pattern = MAJOR.MINOR.PATCH\n",
            "pyproject.toml": "[tool.bumpver]\ncurrent_version = \"1.2.3\"\nversion_pattern = \"MAJOR.MINOR.PATCH\"\n",
            "bumpver.toml": "[bumpver]\ncurrent_version = \"1.2.3\"\nversion_pattern = \"MAJOR.MINOR.PATCH\"\n",
